@@ -8,7 +8,8 @@ from .ctx import Machinery
 QUICK = [("mc/MC_MdBlocksQ", "MC_MdBlocksQ_2.cfg"), ("mc/MC_MdBlocksN", "MC_MdBlocksN_2.cfg"), ("mc/MC_MdBlocksD", "MC_MdBlocksD_2.cfg"),
          ("mc/MC_MdBlocksO", "MC_MdBlocksO_3.cfg"), ("mc/MC_MdBlocksT", "MC_MdBlocksT_3.cfg"), ("mc/MC_MdBlocksR", "MC_MdBlocksR_3.cfg"),
          ("mc/MC_MdBlocksH", "MC_MdBlocksH_2.cfg"), ("mc/MC_MdBlocksL", "MC_MdBlocksL_2.cfg"), ("mc/MC_MdBlocksM", "MC_MdBlocksM_3.cfg"),
-         ("mc/MC_MdBlocksK", "MC_MdBlocksK_all.cfg"), ("mc/MC_MdBlocksJ", "MC_MdBlocksJ_all.cfg"), ("mc/MC_MdBlocksG", "MC_MdBlocksG_2.cfg"), ("mc/MC_MdBlocksB", "MC_MdBlocksB_all.cfg"), ("mc/MC_MdBlocksP", "MC_MdBlocksP_all.cfg"), ("mc/MC_MdBlocksW", "MC_MdBlocksW_all.cfg"), ("mc/MC_MdBlocksX", "MC_MdBlocksX_all.cfg"), ("mc/MC_MdBlocksY", "MC_MdBlocksY_all.cfg")]
+         ("mc/MC_MdBlocksK", "MC_MdBlocksK_all.cfg"), ("mc/MC_MdBlocksJ", "MC_MdBlocksJ_all.cfg"), ("mc/MC_MdBlocksG", "MC_MdBlocksG_2.cfg"), ("mc/MC_MdBlocksB", "MC_MdBlocksB_all.cfg"), ("mc/MC_MdBlocksP", "MC_MdBlocksP_all.cfg"), ("mc/MC_MdBlocksW", "MC_MdBlocksW_all.cfg"), ("mc/MC_MdBlocksX", "MC_MdBlocksX_all.cfg"), ("mc/MC_MdBlocksY", "MC_MdBlocksY_all.cfg"),
+         ("mc/MC_MdBlocksS", "MC_MdBlocksS_2.cfg"), ("mc/MC_MdBlocksZ", "MC_MdBlocksZ_all.cfg")]
 THOROUGH = [("mc/MC_MdBlocksF", "MC_MdBlocksF_2.cfg"), ("mc/MC_MdBlocksQ", "MC_MdBlocksQ_3v.cfg"), ("mc/MC_MdBlocksN", "MC_MdBlocksN_3v.cfg"),
             ("mc/MC_MdBlocksQ", "MC_MdBlocksQ_2.cfg"), ("mc/MC_MdBlocksN", "MC_MdBlocksN_2.cfg"), ("mc/MC_MdBlocksD", "MC_MdBlocksD_2.cfg"),
             ("mc/MC_MdBlocksD", "MC_MdBlocksD_3v.cfg"), ("mc/MC_MdBlocksO", "MC_MdBlocksO_3.cfg"), ("mc/MC_MdBlocksT", "MC_MdBlocksT_3.cfg"),
@@ -17,13 +18,17 @@ THOROUGH = [("mc/MC_MdBlocksF", "MC_MdBlocksF_2.cfg"), ("mc/MC_MdBlocksQ", "MC_M
             ("mc/MC_MdBlocksM", "MC_MdBlocksM_4.cfg"), ("mc/MC_MdBlocksK", "MC_MdBlocksK_all.cfg"), ("mc/MC_MdBlocksJ", "MC_MdBlocksJ_all.cfg"),
             ("mc/MC_MdBlocksG", "MC_MdBlocksG_2.cfg"), ("mc/MC_MdBlocksG", "MC_MdBlocksG_3.cfg"), ("mc/MC_MdBlocksB", "MC_MdBlocksB_all.cfg"),
             ("mc/MC_MdBlocksP", "MC_MdBlocksP_all.cfg"), ("mc/MC_MdBlocksW", "MC_MdBlocksW_all.cfg"),
-            ("mc/MC_MdBlocksX", "MC_MdBlocksX_all.cfg"), ("mc/MC_MdBlocksY", "MC_MdBlocksY_all.cfg")]
+            ("mc/MC_MdBlocksX", "MC_MdBlocksX_all.cfg"), ("mc/MC_MdBlocksY", "MC_MdBlocksY_all.cfg"),
+            ("mc/MC_MdBlocksS", "MC_MdBlocksS_2.cfg"), ("mc/MC_MdBlocksS", "MC_MdBlocksS_3v.cfg"), ("mc/MC_MdBlocksZ", "MC_MdBlocksZ_all.cfg")]
 
 
 def model_docs(ctx, tier):
     """[(text, model record)] -- every document TLC printed, deduplicated by text"""
     out, seen = [], set()
+    only = [x for x in os.environ.get("VH_ONLY_MC", "").split(",") if x]        # development / table increments: only these alphabets
     for mod, cfg in (QUICK if tier == "quick" else THOROUGH):
+        if only and not any(mod.endswith("MdBlocks" + x) for x in only):
+            continue
         # with VIEW, which witness document represents an abstract state depends on the exploration order: one worker (and a fixed
         # fingerprint function) makes the enumerated document set the same on every run
         view = cfg.endswith("v.cfg")
@@ -166,6 +171,8 @@ def position_docs(tier):
 
 def other_docs(tier, seed_):
     """fixed pools (generated, systematic) in a VERIF_SEED-chosen subset for quick, complete for thorough; repository documents"""
+    if os.environ.get("VH_ONLY_MC"):
+        return []
     n_gen, n_sys = (400, 400) if tier == "quick" else (docgen.POOL, docgen.SYS_POOL)
     docs = inline_docs(tier) + lrd_docs(tier) + position_docs(tier) + docgen.documents(n_gen, seed_) + docgen.systematic(seed_, n_sys)
     docs += docgen.fix_families()             # ordinary-looking nested documents (lists in lists in quotes, fences, headings inside items)
